@@ -434,9 +434,22 @@ fn merge_source_map(rng: &mut Rng, anchor: Option<String>, depth: u32, nd: usize
     GNode::Map { anchor, tag: None, flow: true, entries }
 }
 
+/// a TAGGED scalar where a merge value / an element of a merge sequence stands: null by its tag (`!!null x`), a string
+/// by its tag although the text looks null (`!!str null`, `! ~`), another type (`!!int 3`) or a custom tag over null text
+/// (finding C03-tagged-null-merge-value: the null test of merge values ignored the tag)
+fn tagged_merge_scalar(rng: &mut Rng) -> GNode {
+    let (tag, text) = *rng.pick(&[("!!str", "null"), ("!!null", "x"), ("!", "~"), ("!!int", "3"), ("!custom", "null"), ("!!null", "null"), ("!!str", "~"),
+        ("!", "null"), ("!!null", "3"), ("!!str", "x"), ("!custom", "x"), ("!null", "x"), ("!str", "Null"), ("!!", "~"), ("!!float", "~"), ("!!null", "")]);
+    let style = if text.is_empty() || rng.chance(3, 4) { 0u8 } else { *rng.pick(&[1u8, 2]) };
+    ident_count("merge.tagged_scalar");
+    ident_count(&format!("merge.tagged_scalar.{}", tag.trim_start_matches('!')));
+    GNode::Scalar { text: text.into(), style, anchor: None, tag: Some(tag.into()) }
+}
+
 /// the value of a `<<` entry: mapping, alias to a mapping / to a list of mappings, sequence (nested sequences included)
 fn merge_value(rng: &mut Rng, depth: u32, nd: usize, nl: usize) -> GNode {
     match rng.below(8) {
+        5 if rng.chance(1, 4) => tagged_merge_scalar(rng),
         0 | 1 if nd > 0 => GNode::Alias(format!("m{}", rng.below(nd))),
         2 if nl > 0 => GNode::Alias(format!("l{}", rng.below(nl))),
         3 | 4 if depth > 0 => {
@@ -479,7 +492,7 @@ pub fn merge_doc(rng: &mut Rng) -> GNode {
                 let items = (0..k).map(|_| merge_value(rng, 2, nd, nl)).collect();
                 entries.push((sc("<<"), GNode::Seq { anchor: None, tag: None, items, flow: true }));
             }
-            5 => entries.push((sc("<<"), match rng.below(5) { 0 => sc("~"), 1 => sc("scalar"), 2 => GNode::Seq { anchor: None, tag: None, items: vec![sc("x")], flow: true }, 3 => GNode::Scalar { text: "<<".into(), style: 2, anchor: None, tag: None }, _ => sc("") })),
+            5 => entries.push((sc("<<"), match rng.below(7) { 5 | 6 => tagged_merge_scalar(rng), 0 => sc("~"), 1 => sc("scalar"), 2 => GNode::Seq { anchor: None, tag: None, items: vec![sc("x")], flow: true }, 3 => GNode::Scalar { text: "<<".into(), style: 2, anchor: None, tag: None }, _ => sc("") })),
             6 => entries.push((sc("<<"), merge_value(rng, 3, nd, nl))),
             _ => entries.push((GNode::Scalar { text: "<<".into(), style: *rng.pick(&[1u8, 2]), anchor: None, tag: if rng.chance(1, 2) { Some("!!str".into()) } else { None } }, sc("q"))),
         }
@@ -643,6 +656,25 @@ fn generate(a: &Args, name: &str, family: u8) -> i32 {
             }
         }
     }
+    if family == 1 {
+        // tagged scalars as merge values and as elements of merge sequences (finding C03-tagged-null-merge-value): null is
+        // decided by tag AND text — `!!null x` is null, `!!str null` / `! ~` are strings and therefore rejected
+        for t in ["<<: !!str null\nb: 1\n", "<<: !!null x\nb: 1\n", "<<: ! ~\nb: 1\n", "<<: ! null\nb: 1\n", "<<: !!int 3\nb: 1\n", "<<: !custom null\nb: 1\n", "<<: !custom x\nb: 1\n",
+                  "<<: null\nb: 1\n", "<<: \"null\"\nb: 1\n", "<<: !!null \"x\"\nb: 1\n", "<<: !!str \"null\"\nb: 1\n", "<<: !!null\nb: 1\n", "<<: !!str\nb: 1\n", "<<: !!int null\nb: 1\n",
+                  "{<<: [!!str null], b: 1}", "{<<: [!!null x], b: 1}", "{<<: [! ~, {a: 1}], b: 1}", "{<<: [{a: 1}, !!null x], b: 1}", "{<<: [[!!null x, {a: 2}], !custom null], b: 1}", "{<<: [[!!str ~]], b: 1}",
+                  "m: &m !!str null\nt: {<<: *m, b: 1}\n", "m: &m !!null x\nt: {<<: *m, b: 1}\n", "m: &m {<<: !!str null, a: 1}\nt: {<<: *m, b: 1}\n", "m: &m {<<: !!null x, a: 1}\nt: {<<: [*m], b: 1}\n"] {
+            let text = t.replace("\\n", "\n");
+            for ty in [Ty::Any, Ty::Map(Box::new(Ty::Str), Box::new(Ty::Any)), Ty::Struct(vec![("a", Ty::Option(Box::new(Ty::Any))), ("b", Ty::Option(Box::new(Ty::Any))), ("t", Ty::Option(Box::new(Ty::Any))), ("m", Ty::Option(Box::new(Ty::Any)))], false)] {
+                for dup in 0..3u8 {
+                    let cfg = Cfg { dup, legacy_octal: false, strict_bool: false, ignore_binary: false, no_schema: false, budget: Some(Budget::default()), limits: AliasLimits::default() };
+                    let (items, _, _) = crate::pump::items_tokens(&text);
+                    let ans = run_single(&text, &ty, &cfg);
+                    sink.count("corpus.merge_tagged_scalar");
+                    sink.case(&format!("e2e single {} {} | {}", cfg.tokens(false), ty.tokens(), items), &ans);
+                }
+            }
+        }
+    }
     if family == 0 || family == 3 {
         for (ty, text) in ident_corpus() {
             for (no_schema, ignore_binary) in [(false, false), (true, false), (false, true)] {
@@ -787,7 +819,7 @@ fn generate(a: &Args, name: &str, family: u8) -> i32 {
     for (k, v) in IDENT_STATS.with(|s| std::mem::take(&mut *s.borrow_mut())) { *sink.stats.entry(k).or_insert(0) += v; }
     sink.finish(&a.out, name, serde_json::json!({
         "distinct_nontrivial": nt,
-        "rule": "generated (type description, document, options) triples: the document is generated FROM the type (mostly matching), then perturbed half of the time (surplus/missing elements, wrong kind, unknown field, duplicate entry, null for a container, tags, anchors+aliases, entries moved into merge sources, a key rewritten in another notation, an unknown key that is tagged / a look-alike); struct field and `{Variant: payload}` keys are written plain 3 times out of 4 and otherwise as `!!str name`, `!!binary <base64 of name>`, `!!binary name`, `!!int name` (and other non-string tags), `! name` / `!custom name`, or quoted, and 1 struct in 6 / 1 enum in 8 has a field / variant named `true`, `1`, `~`, `null` or `1.5` (plain look-alike keys under no_schema and default options) - counted as ident.<form>[.lookalike]; families: general (also untyped target and multi-document/iterator variants), merge-key documents (inline maps, aliases, sequences, nested merges, colliding own keys, invalid merge values, quoted/tagged <<), duplicate-key documents (scalar/sequence/mapping keys, quoted vs plain, tagged, null-like) x 3 policies. Implementation = with_deserializer_from_str_with_options / from_multiple_with_options / read_with_options with a DeserializeSeed that issues the derive calls; model = pump + typed deserializer + entry protocol on the real parser's items. Compared: value tree or error kind + location (+ definition location for alias errors). Non-trivial = distinct (type, item stream) with more than 4 events.",
+        "rule": "generated (type description, document, options) triples: the document is generated FROM the type (mostly matching), then perturbed half of the time (surplus/missing elements, wrong kind, unknown field, duplicate entry, null for a container, tags, anchors+aliases, entries moved into merge sources, a key rewritten in another notation, an unknown key that is tagged / a look-alike); struct field and `{Variant: payload}` keys are written plain 3 times out of 4 and otherwise as `!!str name`, `!!binary <base64 of name>`, `!!binary name`, `!!int name` (and other non-string tags), `! name` / `!custom name`, or quoted, and 1 struct in 6 / 1 enum in 8 has a field / variant named `true`, `1`, `~`, `null` or `1.5` (plain look-alike keys under no_schema and default options) - counted as ident.<form>[.lookalike]; families: general (also untyped target and multi-document/iterator variants), merge-key documents (inline maps, aliases, sequences, nested merges, colliding own keys, invalid merge values, tagged scalars as merge values and merge-sequence elements (`!!str null`, `!!null x`, `! ~`, `!!int 3`, `!custom null`, ... - counted as merge.tagged_scalar), quoted/tagged <<), duplicate-key documents (scalar/sequence/mapping keys, quoted vs plain, tagged, null-like) x 3 policies. Implementation = with_deserializer_from_str_with_options / from_multiple_with_options / read_with_options with a DeserializeSeed that issues the derive calls; model = pump + typed deserializer + entry protocol on the real parser's items. Compared: value tree or error kind + location (+ definition location for alias errors). Non-trivial = distinct (type, item stream) with more than 4 events.",
     }));
     0
 }
